@@ -7,6 +7,7 @@ import (
 	"sort"
 	"strconv"
 	"strings"
+	"time"
 
 	"github.com/Shopify/sarama"
 
@@ -228,6 +229,9 @@ func (r *rig) judge() *gx.Outcome {
 				if wk := p.KeyOf(n); !bytes.Equal(x.Key, wk) || (len(wk) > 0) != (len(x.Key) > 0) {
 					out.Violate("C04", "altered-on-wire key", "m%d carried key %q, submitted %q (codec %v, %s)", n, x.Key, wk, p.Codec, p.Version)
 				}
+				if wt := p.TimestampOf(n); !wt.IsZero() && p.Version.IsAtLeast(sarama.V0_10_0_0) && !x.Timestamp.Equal(wt) {
+					out.Violate("C04", "altered-on-wire timestamp", "m%d carried timestamp %s, submitted %s (codec %v, %s)", n, x.Timestamp.UTC().Format(time.RFC3339), wt.Format(time.RFC3339), p.Codec, p.Version)
+				}
 				if p.Icpt == 0 {
 					wh := p.HeadersOf(n)
 					if len(x.Headers) != len(wh) {
@@ -281,6 +285,53 @@ func (r *rig) judge() *gx.Outcome {
 			connErr bool // the request carrying it ended in a connection-level failure (no response)
 		}
 		seenB := map[key][]*sent{}
+		// "a resent batch carries the identical sequence range, epoch and records": a batch handed back to a broker
+		// worker as a whole (retryBatch) is recognisable in the trace - between the answer to its previous
+		// transmission and the answer to this one retryBatch.out(partition) was released and no message of the
+		// partition went through the partition dispatcher (pp.send) again. (Re-sends of messages that were re-queued
+		// one by one are judged by the per-epoch rules below, where the known epoch-bump family lives.)
+		type wire struct {
+			ids         string
+			epoch       int16
+			first, step int
+		}
+		lastWire := map[int32][]wire{}
+		trace := r.c.Trace()
+		for _, pe := range r.cl.Produced {
+			for _, b := range pe.Batches {
+				if !b.IsBatch || b.PID < 0 {
+					continue
+				}
+				ids := []string{}
+				for _, x := range b.Recs {
+					ids = append(ids, string(x.Value))
+				}
+				cur := wire{fmt.Sprint(ids), b.Epoch, int(b.FirstSeq), pe.Step}
+				l := lastWire[b.Partition]
+				for i := len(l) - 1; i >= 0; i-- {
+					if l[i].ids != cur.ids {
+						continue
+					}
+					if l[i].epoch != cur.epoch || l[i].first != cur.first {
+						viaBatch, viaDispatch := false, false
+						for s := l[i].step; s < cur.step && s < len(trace); s++ {
+							if strings.HasPrefix(trace[s], fmt.Sprintf("rel:retryBatch.out(t,%d)", b.Partition)) {
+								viaBatch = true
+							}
+							if strings.HasPrefix(trace[s], fmt.Sprintf("rel:pp.send(t,%d)", b.Partition)) {
+								viaDispatch = true
+							}
+						}
+						if viaBatch && !viaDispatch {
+							out.Violate("C05", "resent-batch-differs via-retryBatch", "partition %d: batch %v handed back as a whole (retryBatch) was re-sent as (epoch %d, first sequence %d), originally (epoch %d, first sequence %d) (%s); %s",
+								b.Partition, ids, cur.epoch, cur.first, l[i].epoch, l[i].first, cfg, summary())
+						}
+					}
+					break
+				}
+				lastWire[b.Partition] = append(l, cur)
+			}
+		}
 		connErrSeen := false // a connection-level failure happened earlier in the run (the worker then re-queues everything it holds one by one)
 		for _, pe := range r.cl.Produced {
 			connErr := pe.Fault == "drop" || pe.Fault == "drop-appended"
